@@ -89,4 +89,9 @@ fn main() {
             std::process::exit(2);
         }
     }
+    drop(out);
+    w.flush().unwrap();
+    drop(w);
+    // helper threads that hang (a finding, reported in the records) must not keep the process alive
+    std::process::exit(0);
 }
